@@ -27,6 +27,7 @@ ASSUMPTIONS = [
     'mutants that happen to be valid programs are checked under clause (a) without scope expectations',
 ]
 EXHAUSTIVE = {'quick': False, 'thorough': False}
+PYOPT_KINDS = ('valid',)
 KNOWN_KEYS = {'paren-prefix-suffix', 'no-final-newline-indexerror', 'silent-truncation', 'empty-program-indexerror'}
 
 
